@@ -246,12 +246,26 @@ def oracle_linear(R: Run, case, src_shape, dst_shape, A6, r, pad, align, eps, ta
                  f"footprints separated by more than the margin {margin} but roi_src={r.roi_src} roi_dst={r.roi_dst}",
                  sig=f"plan|{tag}|separated")
     check_scale(R, "plan", case, r, st_scale, 0 if eps == 0 else 1e-9, f"plan|{tag}")
+    if r.paste_ok:  # paste contract on the RETURNED regions, whatever padding / align / tolerances were passed
+        (ys, xs), (yd, xd) = r.roi_src, r.roi_dst
+        R.oracle((ys.stop - ys.start, xs.stop - xs.start) == (rs * (yd.stop - yd.start), rs * (xd.stop - xd.start)),
+                 "paste-src-shape-not-shrink-times-dst", case,
+                 f"paste_ok read_shrink={rs} padding={pad} align={align} roi_src={r.roi_src} roi_dst={r.roi_dst}",
+                 sig=f"plan|{tag}|paste-shape")
+        R.oracle(align in (None, 0) and pad in (None, 0), "paste-ok-with-padding-or-align", case,
+                 f"paste_ok reported although padding={pad} align={align} were requested", sig=f"plan|{tag}|paste-tight")
 
 
 # ------------------------------------------------------------------ generators
 def dy(rng, k, lo, hi):
     """random dyadic with denominator 2^k in [lo, hi]"""
     return rng.randint(lo * 2**k, hi * 2**k) / 2**k
+
+
+# tolerance options are part of the input space: 0, tiny, usual, around 1/2, above 1/2 (loaders pass 0.9 for nearest), huge
+TTOL_EXACT = [0.05, 0.05, 0.05, 2**-5, 2**-4 + 2**-8, 0.26, 0.0, 2.0**-40, 0.5, 0.5 + 2.0**-30, 0.625, 0.75, 0.9, 1.0, 1.5, 4.0, 2.0**20]
+TTOL_FLOAT = [0.05, 0.05, 1e-2, 1e-3, 0.2, 0.0, 1e-12, 0.45, 0.5, 0.6, 0.9, 0.9, 1.0, 3.0, 1e6]
+STOL_EXACT = [1e-3, 1e-3, 1e-3, 0.0, 1e-6, 2**-10, 1e-2, 2**-5, 0.125, 0.3]
 
 
 def gen_src_affine(rng):
@@ -507,7 +521,7 @@ def run(R: Run):
         else:
             pad = rng.choice([None, None, None, 0, 0, 1, 2, 5])
             al = rng.choice([None, None, None, 0, 1, 2, 4, 16])
-        ttol = rng.choice([0.05, 0.05, 0.05, 2**-5, 2**-4 + 2**-8, 0.26])
+        ttol = rng.choice(TTOL_EXACT)
         return pad, al, ttol
 
     def shapes():
@@ -522,6 +536,10 @@ def run(R: Run):
         M, kind = gen_M_exact(rng, sshape, dshape)
         D = S * M
         pad, al, ttol = options()
+        stol = rng.choice(STOL_EXACT)
+        # a shift snapped by a tolerance of 1/2 or more can sit exactly half a pixel from the true one: such exact
+        # ties at an image border are not judged (every other pixel is)
+        eps_x = 0 if ttol < 0.5 else 1e-6
         src, dst = gb(sshape, S), gb(dshape, D)
         A6 = fmul(finv(faff(S)), faff(D))
         if A6 != faff(M):  # D = S*M was not exact in doubles: not an exact-stream case
@@ -531,7 +549,7 @@ def run(R: Run):
         res = []
 
         def fplan():
-            r = O.compute_reproject_roi(src, dst, ttol=ttol, padding=pad, align=al)
+            r = O.compute_reproject_roi(src, dst, ttol=ttol, stol=stol, padding=pad, align=al)
             res.append(r)
             if not rational_root:
                 return f"{roi_s(r.roi_src)} {roi_s(r.roi_dst)}"
@@ -539,7 +557,7 @@ def run(R: Run):
 
         if rational_root:
             line = (f"c03 plan {sshape[0]} {sshape[1]} {dshape[0]} {dshape[1]} {aff_s(S)} {aff_s(D)} "
-                    f"{frac_s(ttol)} {frac_s(1e-3)} {opt_s(pad)} {opt_s(al)}")
+                    f"{frac_s(ttol)} {frac_s(stol)} {opt_s(pad)} {opt_s(al)}")
         else:
             line = (f"c03 relrois {sshape[0]} {sshape[1]} {dshape[0]} {dshape[1]} {aff_s(S)} {aff_s(D)} "
                     f"{1 if pad is None else pad} {opt_s(None if al == 0 else al)} 2")
@@ -552,14 +570,14 @@ def run(R: Run):
             if res:
                 st = (abs(A6[0]), abs(A6[4])) if (A6[1] == 0 and A6[3] == 0) else None
                 oracle_linear(R, {"fn": "compute_reproject_roi", "src_shape": sshape, "dst_shape": dshape,
-                                  "src_affine": list(S)[:6], "dst_affine": list(D)[:6], "ttol": ttol, "padding": pad,
+                                  "src_affine": list(S)[:6], "dst_affine": list(D)[:6], "ttol": ttol, "stol": stol, "padding": pad,
                                   "align": al, "crs": CRS0}, sshape, dshape, A6, res[0], pad, al, 1e-6, kind + "-fine", st_scale=st)
             continue
         tag = kind + ("|paste" if res and res[0].paste_ok else "|padded") + (
             f"|rs{min(int(res[0].read_shrink), 3)}" if res else "") + ("|" + placement(res[0], sshape, dshape) if res else "")
         R.corr(line, lambda: out, sig="plan|" + tag + ("|align" if al else "") + ("|pad" if pad else ""))
         case = {"fn": "compute_reproject_roi", "src_shape": sshape, "dst_shape": dshape, "src_affine": list(S)[:6],
-                "dst_affine": list(D)[:6], "ttol": ttol, "padding": pad, "align": al, "crs": CRS0}
+                "dst_affine": list(D)[:6], "ttol": ttol, "stol": stol, "padding": pad, "align": al, "crs": CRS0}
         if not res:
             R.oracle(False, "plan-raises", case, f"compute_reproject_roi raised {out}", sig="plan|raises")
             continue
@@ -567,7 +585,7 @@ def run(R: Run):
         if not rational_root:
             R.oracle(not r.paste_ok, "paste-ok-for-rotation", case, "paste_ok for a rotated transform", sig="plan|rot-nopaste")
         st = (abs(A6[0]), abs(A6[4])) if (A6[1] == 0 and A6[3] == 0) else None
-        oracle_linear(R, case, sshape, dshape, A6, r, pad, al, 0, kind, st_scale=st)
+        oracle_linear(R, case, sshape, dshape, A6, r, pad, al, eps_x, kind, st_scale=st)
 
     # --- huge images, whole-pixel shifts (paste path: no float32 boundary sampling involved)
     for _ in range(R.pick(150, 1500)):
@@ -595,8 +613,8 @@ def run(R: Run):
             sshape = (int(abs(M.f)) + rng.randint(1, 8) * max(1, int(abs(M.e))) * dshape[0] // 3 + 1,
                       int(abs(M.c)) + rng.randint(1, 8) * max(1, int(abs(M.a))) * dshape[1] // 3 + 1)
             kind += "-far"
-        ttol = rng.choice([0.05, 0.05, 2**-5, 0.26])
-        stol = 2**-10 if kind == "edge" or rng.random() < 0.3 else 1e-3
+        ttol = rng.choice([0.05, 0.05, 2**-5, 0.26] + TTOL_EXACT)
+        stol = 2**-10 if kind == "edge" or rng.random() < 0.3 else rng.choice([1e-3, 1e-3, 1e-2, 1e-6, 2**-5, 0.125])
         src, dst = gb(sshape, Affine.identity()), gb(dshape, M)
         res = []
 
@@ -627,7 +645,7 @@ def run(R: Run):
         else:
             R.count("plan-patched-not-compared|" + kind)
         A6 = faff(M)
-        oracle_linear(R, case, sshape, dshape, A6, r, None, None, 0, kind, st_scale=(abs(A6[0]), abs(A6[4])))
+        oracle_linear(R, case, sshape, dshape, A6, r, None, None, 0 if ttol < 0.5 else 1e-6, kind, st_scale=(abs(A6[0]), abs(A6[4])))
         if kind == "edge":
             (ys, xs), (yd, xd) = r.roi_src, r.roi_dst
             R.oracle(not r.paste_ok or (ys.stop - ys.start, xs.stop - xs.start) == (yd.stop - yd.start, xd.stop - xd.start),
@@ -706,13 +724,18 @@ def run(R: Run):
         if kind == "subpix":
             tx, ty = round(tx) + rng.uniform(-0.08, 0.08), round(ty) + rng.uniform(-0.08, 0.08)
         D = S * Affine.translation(tx, ty) * L
-        pad = rng.choice([None, None, 0, 1, 3])
-        al = rng.choice([None, None, None, 0, 4, 16])
+        pad = rng.choice([None, None, 0, 1, 2, 3, 5])
+        al = rng.choice([None, None, None, 0, 1, 2, 4, 16])
+        ttol_f = rng.choice([0.05, 0.05] + TTOL_FLOAT)
+        stol_f = rng.choice([1e-3, 1e-3, 1e-3, 1e-2, 1e-4, 1e-6, 0.0, 0.1])
+        if kind == "subpix" and rng.random() < 0.5:  # residues anywhere in the pixel, not only near whole numbers
+            tx, ty = round(tx) + rng.uniform(-0.5, 0.5), round(ty) + rng.uniform(-0.5, 0.5)
+            D = S * Affine.translation(tx, ty) * L
         src, dst = gb(sshape, S), gb(dshape, D)
         case = {"fn": "compute_reproject_roi", "src_shape": sshape, "dst_shape": dshape, "src_affine": list(S)[:6],
-                "dst_affine": list(D)[:6], "padding": pad, "align": al, "crs": CRS0}
+                "dst_affine": list(D)[:6], "padding": pad, "align": al, "ttol": ttol_f, "stol": stol_f, "crs": CRS0}
         try:
-            r = O.compute_reproject_roi(src, dst, padding=pad, align=al)
+            r = O.compute_reproject_roi(src, dst, padding=pad, align=al, ttol=ttol_f, stol=stol_f)
         except Exception as e:  # pylint: disable=broad-except
             R.oracle(False, "plan-raises", case, f"compute_reproject_roi raised {type(e).__name__}: {e}", sig="plan|raises")
             continue
@@ -756,21 +779,25 @@ def run(R: Run):
     # --- caller supplied tolerances, scales straddling k ± stol (oracle only)
     for _ in range(R.pick(300, 3000)):
         stol = rng.choice([1e-2, 1e-3, 1e-4, 1e-6])
-        ttol = rng.choice([0.05, 1e-2, 1e-3, 0.2])
+        ttol = rng.choice(TTOL_FLOAT)
         k = rng.choice([1, 2, 2, 3, 4, 5])
         dlt = stol * rng.choice([0.3, 0.9, 0.99, 1.01, 1.1, 2.5, 6.0]) * rng.choice([1, -1])
         dlt2 = dlt if rng.random() < 0.6 else stol * rng.choice([0.3, 1.5]) * rng.choice([1, -1])
         sshape = (rng.randint(8, 90), rng.randint(8, 90))
         dshape = (rng.randint(4, 50), rng.randint(4, 50))
         sg = (rng.choice([1, 1, -1]), rng.choice([1, 1, -1]))
-        rt = ttol * rng.choice([0, 0.5, 0.9, 1.1, 3]) * rng.choice([1, -1])
+        rt = min(ttol, 0.5) * rng.choice([0, 0.5, 0.9, 1.1, 3]) * rng.choice([1, -1])
+        if ttol > 0.5 and rng.random() < 0.7:  # any residue is inside such a tolerance: both sides of the half pixel
+            rt = rng.uniform(-0.5, 0.5) + rng.choice([0, 0, 1, -1])
+        pad_t = rng.choice([None, None, None, 0, 0, 1, 2, 5])
+        al_t = rng.choice([None, None, None, 0, 0, 1, 2, 4, 16])
         ox, oy = rng.randint(-dshape[1], sshape[1] // k), rng.randint(-dshape[0], sshape[0] // k)
         if rng.random() < 0.45:  # chips far from the origin of a large source: 1e2 .. 1e5 overview pixels, both axes
             dlt = stol * rng.choice([0.9, 0.4, 0.1, 1e-3, 0]) * rng.choice([1, -1]) if stol >= 1e-3 else dlt
             dlt2 = dlt
             ox, oy = int(10 ** rng.uniform(2, 5)), int(10 ** rng.uniform(2, 5))
             sshape = (k * (oy + rng.randint(dshape[0] // 2, 2 * dshape[0])), k * (ox + rng.randint(dshape[1] // 2, 2 * dshape[1])))
-            rt = ttol * rng.choice([0, 0.3, 0.6]) * rng.choice([1, -1])
+            rt = min(ttol, 0.5) * rng.choice([0, 0.3, 0.6]) * rng.choice([1, -1])
         tx = k * (ox + rt) + (k * dshape[1] if sg[0] < 0 else 0)
         ty = k * (oy + rt / 2) + (k * dshape[0] if sg[1] < 0 else 0)
         S = gen_src_affine(rng) if rng.random() < 0.4 else (float_src_affine(rng, rng.choice(RES_CHOICES)) if rng.random() < 0.6
@@ -778,14 +805,14 @@ def run(R: Run):
         D = S * Affine((k + dlt) * sg[0], 0, tx, 0, (k + dlt2) * sg[1], ty)
         src, dst = gb(sshape, S), gb(dshape, D)
         case = {"fn": "compute_reproject_roi", "src_shape": sshape, "dst_shape": dshape, "src_affine": list(S)[:6],
-                "dst_affine": list(D)[:6], "stol": stol, "ttol": ttol, "crs": CRS0}
+                "dst_affine": list(D)[:6], "stol": stol, "ttol": ttol, "padding": pad_t, "align": al_t, "crs": CRS0}
         try:
-            r = O.compute_reproject_roi(src, dst, stol=stol, ttol=ttol)
+            r = O.compute_reproject_roi(src, dst, stol=stol, ttol=ttol, padding=pad_t, align=al_t)
         except Exception as e:  # pylint: disable=broad-except
             R.oracle(False, "plan-raises", case, f"compute_reproject_roi raised {type(e).__name__}: {e}", sig="plan|raises")
             continue
         A6 = fmul(finv(faff(S)), faff(D))
-        oracle_linear(R, case, sshape, dshape, A6, r, None, None, 1e-6, f"float-tol-{stol:g}" + ("|paste" if r.paste_ok else ""),
+        oracle_linear(R, case, sshape, dshape, A6, r, pad_t, al_t, 1e-6, f"float-tol-{stol:g}" + ("|paste" if r.paste_ok else ""),
                       st_scale=(float(abs(A6[0])), float(abs(A6[4]))))
         if r.paste_ok:  # two-sided: source region = read_shrink x destination region, and the scale is within the stated stol
             rs = int(r.read_shrink)
